@@ -191,7 +191,7 @@ func TestVerif_C47(t *testing.T) {
 		// three callers of one blob: after a failed computation both waiters recompute and add the same id twice
 		"xxx": {"G1": {'x'}, "G2": {'x'}, "G3": {'x'}},
 	}
-	bound := vh.Pick(r, 2, 3)
+	bound := vh.Pick(r, 2, 4)
 	names := []string{"xx-y", "xy-xz-z", "xyz-x", "xxx"}
 	for _, name := range names {
 		sc, check := verifC47Scenario(progs[name], r, name)
